@@ -462,6 +462,149 @@ theorem settle_transparent_sig (P : Prims) (valid : Validator) (kr : Keyring) (m
       | none => rfl
       | some pk => simp only [key]
 
+/-! ## encryption -/
+
+/-- REFERENCE run of the decrypting receiver: `Decrypt.run` with the `typed` tail where a further
+    packet is expected and the `generic` one in `assertEndOfStream` -/
+def runEnc2 (P : Prims) (s : Decrypt.State) : List (Option EncBlock) → (typed generic : Tail) → (seqno : Nat) → Released
+  | [], typed, _, _ =>
+    match typed with
+    | .eof => ⟨[], some .unexpectedEOF⟩
+    | .err e => ⟨[], some e⟩
+  | none :: _, _, _, _ => ⟨[], some .decodeError⟩
+  | some b :: rest, typed, generic, seqno =>
+    let isFinal := Decrypt.blockFinal s.version b
+    match Decrypt.processBlock P s b isFinal seqno with
+    | .error e => ⟨[], some e⟩
+    | .ok chunk =>
+      match checkChunkState s.version chunk.length (seqno - 1) isFinal with
+      | .error e => ⟨[], some e⟩
+      | .ok () =>
+        if isFinal then ⟨chunk, Decrypt.endOfStream rest generic⟩
+        else
+          let r := runEnc2 P s rest typed generic (seqno + 1)
+          ⟨chunk ++ r.bytes, r.err⟩
+
+/-- reference composition for `NewDecryptStream` + read to the end -/
+def refOpenEnc (P : Prims) (valid : Validator) (kr : Keyring) (hr : HeaderRead EncHeader)
+    (items : List (Option EncBlock)) (typed generic : Tail) : Decrypt.Result :=
+  match hr with
+  | .unreadable => ⟨none, [], some .failedToReadHeaderBytes, []⟩
+  | .undecodable _ => ⟨none, [], some .decodeError, []⟩
+  | .ok hb h =>
+    match Decrypt.processHeader P valid kr (P.hash hb) h with
+    | (log, .error e) => ⟨none, [], some e, log⟩
+    | (log, .ok st) =>
+      let r := runEnc2 P st items typed generic 1
+      ⟨some st.mki, r.bytes, r.err, log⟩
+
+theorem runEnc2_same (P : Prims) (s : Decrypt.State) (items : List (Option EncBlock)) (t : Tail) (n : Nat) :
+    runEnc2 P s items t t n = Decrypt.run P s items t n := by
+  induction items generalizing n with
+  | nil => cases t <;> rfl
+  | cons x rest ih =>
+    cases x with
+    | none => rfl
+    | some b =>
+      simp only [runEnc2, Decrypt.run]
+      cases Decrypt.processBlock P s b (Decrypt.blockFinal s.version b) n with
+      | error e => rfl
+      | ok chunk =>
+        simp only []
+        cases checkChunkState s.version chunk.length (n - 1) (Decrypt.blockFinal s.version b) with
+        | error e => rfl
+        | ok u => simp only [ih]
+
+/-- case 2 — the last decoded packet is final: the typed tail is never consulted -/
+theorem runEnc2_lastFinal (P : Prims) (s : Decrypt.State) (items : List (Option EncBlock)) (typed generic : Tail)
+    (n : Nat) (hl : Front.lastFinal (Decrypt.blockFinal s.version) items = true) :
+    runEnc2 P s items typed generic n = Decrypt.run P s items generic n := by
+  induction items generalizing n with
+  | nil => simp [Front.lastFinal] at hl
+  | cons x rest ih =>
+    cases x with
+    | none => rfl
+    | some b =>
+      simp only [runEnc2, Decrypt.run]
+      cases Decrypt.processBlock P s b (Decrypt.blockFinal s.version b) n with
+      | error e => rfl
+      | ok chunk =>
+        simp only []
+        cases checkChunkState s.version chunk.length (n - 1) (Decrypt.blockFinal s.version b) with
+        | error e => rfl
+        | ok u =>
+          simp only []
+          by_cases hf : Decrypt.blockFinal s.version b = true
+          · simp only [hf, if_true]
+          · have : Front.lastFinal (Decrypt.blockFinal s.version) rest = true := by
+              cases rest with
+              | nil => rw [lastFinal_single] at hl; exact absurd hl hf
+              | cons y r => rwa [lastFinal_cons_cons] at hl
+            simp [hf, ih _ this]
+
+/-- cases 1 and 3 — the last decoded item is not a final packet: the generic tail is never consulted -/
+theorem runEnc2_not_lastFinal (P : Prims) (s : Decrypt.State) (items : List (Option EncBlock)) (typed generic : Tail)
+    (n : Nat) (hl : Front.lastFinal (Decrypt.blockFinal s.version) items = false) :
+    runEnc2 P s items typed generic n = Decrypt.run P s items typed n := by
+  induction items generalizing n with
+  | nil => cases typed <;> rfl
+  | cons x rest ih =>
+    cases x with
+    | none => rfl
+    | some b =>
+      simp only [runEnc2, Decrypt.run]
+      cases Decrypt.processBlock P s b (Decrypt.blockFinal s.version b) n with
+      | error e => rfl
+      | ok chunk =>
+        simp only []
+        cases checkChunkState s.version chunk.length (n - 1) (Decrypt.blockFinal s.version b) with
+        | error e => rfl
+        | ok u =>
+          simp only []
+          by_cases hf : Decrypt.blockFinal s.version b = true
+          · simp only [hf, if_true]
+            cases rest with
+            | nil => rw [lastFinal_single] at hl; simp [hf] at hl
+            | cons y r => rfl
+          · have : Front.lastFinal (Decrypt.blockFinal s.version) rest = false := by
+              cases rest with
+              | nil => rfl
+              | cons y r => rwa [lastFinal_cons_cons] at hl
+            simp [hf, ih _ this]
+
+/-- **`settle` is transparent for the decrypting receiver** -/
+theorem settle_transparent_enc (P : Prims) (valid : Validator) (kr : Keyring) (msg : Bytes)
+    (hr : HeaderRead EncHeader) (ps : PStream EncBlock) (h : Codec.splitEnc msg = .ok (hr, ps)) :
+    Decrypt.openBytes P valid kr msg =
+      .ok (refOpenEnc P valid kr hr ps.items ps.tail
+            (genericTailOf Codec.decEncHeader
+              (fun h => if Codec.majorOK h.version.major then some (Codec.decEncBlock h.version.major) else none) msg)) := by
+  obtain ⟨t, hs, ht⟩ := settle_spec Codec.decEncHeader
+    (fun h => if Codec.majorOK h.version.major then some (Codec.decEncBlock h.version.major) else none)
+    (fun h (b : EncBlock) => Decrypt.blockFinal h.version b) msg hr ps h
+  unfold Decrypt.openBytes Front.readEnc
+  rw [h, hs]
+  simp only [Front.orWire]
+  congr 1
+  cases hr with
+  | unreadable => rfl
+  | undecodable x => rfl
+  | ok hb hd =>
+    simp only [Decrypt.openStream, refOpenEnc]
+    obtain ⟨h1, h2⟩ := ht hb hd rfl
+    have key : ∀ st : Decrypt.State, st.version = hd.version → Decrypt.run P st ps.items t 1 =
+        runEnc2 P st ps.items ps.tail
+        (genericTailOf Codec.decEncHeader
+          (fun h => if Codec.majorOK h.version.major then some (Codec.decEncBlock h.version.major) else none) msg) 1 := by
+      intro st hv
+      rw [← hv] at h1 h2
+      cases hl : Front.lastFinal (Decrypt.blockFinal st.version) ps.items with
+      | true => rw [h1 hl]; exact (runEnc2_lastFinal P st _ _ _ _ hl).symm
+      | false => rw [h2 hl]; exact (runEnc2_not_lastFinal P st _ _ _ _ hl).symm
+    rcases hph : Decrypt.processHeader P valid kr (P.hash hb) hd with ⟨log, e | st⟩
+    · rfl
+    · simp only [key st (dec_processHeader_version P valid kr _ hd log st hph)]
+
 end Settle
 
 end Saltpack.Proofs
